@@ -103,8 +103,27 @@ def _random_records(ctx, count, nmax):
             r = run_rate(c, ids, 1, 1)
         if one is None:
             break
-        recs.append(dict(id=rid, t=t, c=c, ids=ids, bin=bin_, half=half, out=one, sym=sym,
+        recs.append(dict(id=rid, kind='run', t=t, c=c, ids=ids, bin=bin_, half=half, out=one, sym=sym,
                          shifts=shifts, rate=r))
+    # long DENSE trains (thousands of spikes on a handful of times: single cells hold 10^5 .. 10^6 pairs), given to
+    # the specification as bags; spikes sharing a time are ordered by the position of their cluster in the id list
+    for j in range(3 if nmax <= 40 else 12):
+        ntimes = int(rng.randint(3, 7))
+        tv = sorted(int(x) for x in rng.choice(np.arange(0, 12), size=ntimes, replace=False))
+        ids = as_list(rng.permutation([0, 3, 9])[:int(rng.randint(1, 3))])
+        nn = [[int(rng.randint(60, 260)) for _ in ids] for _ in tv]
+        t, c = [], []
+        for u, tu in enumerate(tv):
+            for a, cid in enumerate(ids):
+                t += [tu] * nn[u][a]
+                c += [cid] * nn[u][a]
+        bin_, half = int(rng.randint(1, 4)), int(rng.randint(0, 4))
+        one = None
+        with ctx.guard('trace', dict(dense=True, tv=tv, nn=nn, ids=ids, bin=bin_, half=half), seconds=120):
+            one, sym, _ = run_code(t, c, ids, bin_, half, int(2 ** rng.randint(0, 10)), variant=j)
+        if one is None:
+            break
+        recs.append(dict(id=len(recs) + 1, kind='dense', tv=tv, nn=nn, ids=ids, bin=bin_, half=half, out=one, sym=sym))
     return recs
 
 
